@@ -50,6 +50,14 @@ def gen(rng, tier):
             add("crash", "crash %s %s %d %d" % (kvs(olds), kvs(sets), min(i, 15), g), g % 6, 6)
     for g in range(0, 26 if tier == "quick" else 32):
         add("crashcfg", "crashcfg %d" % g, g % 6, 6)
+    # after the restart the application writes the key again (shorter, equal, longer, empty): whatever the interrupted
+    # write left behind (a temp file with any content) must not show up in the value
+    for new in ([rb(rng, 700), rb(rng, 9)] if tier == "quick" else [rb(rng, 700), rb(rng, 9), rb(rng, 4096), b"", rb(rng, 64)]):
+        for then in (new[:len(new) // 3], rb(rng, 3), new + rb(rng, 7), b""):
+            key = rng.choice([b"k", b"a:b", b"version"])
+            olds = [(b"other", rb(rng, 7)), (key, rb(rng, 20))]
+            for g in range(0, 7):
+                add("crashthen", "crash %s %s %d %d %s" % (kvs(olds), kvs([(key, new)]), min(g, 5), g, kvs([(key, then)])), g, 6)
     return cases
 
 
@@ -81,6 +89,11 @@ def oracle(c, obs):
     new = {}
     for k, v in sets:
         new.setdefault(k, []).append(v)
+    if len(toks) > 5:
+        # written again after the restart: exactly that value
+        for k, v in parse(toks[5]):
+            olds[k] = v
+            new[k] = []
     for f in obs.split(" "):
         k, v = f.split("=", 1)
         if k == "list":
